@@ -414,6 +414,82 @@ def _cuckoo_run(ctx, rng, case, failing):
     case.nontrivial = ex.decisions > 0 or stats["capacity_changes"] > 0
 
 
+def wl_ccf_counts_at_limit(ctx, rng, case):
+    """counting cuckoo filters LOADED from a saved image in which some bins hold counts at or just below 2^32-1 (the image of a very long
+    history; crafting the image is the only practical way to get there): through further additions (which the filter may carry out or
+    refuse), removals, an expansion and another reload, elements_added stays the sum of all bin counts and unique_elements the number of bins"""
+    import random as stdrandom
+    import struct
+
+    import probables as P
+
+    cap, bsz = rng.choice([(20, 2), (50, 4), (31, 3), (8, 4)])
+    keys = [f"hot-{case.index}-{i}" for i in range(rng.randint(3, 8))]
+    stdrandom.seed(rng.getrandbits(32))
+    f = P.CountingCuckooFilter(capacity=cap, bucket_size=bsz, max_swaps=30)
+    for kx in keys:
+        for _ in range(rng.randint(1, 3)):
+            f.add(kx)
+    data = bytearray(bytes(f))
+    hot = []
+    for off in range(0, len(data) - 8, 8):
+        fp, cnt = struct.unpack_from("<II", data, off)
+        if fp and rng.random() < 0.6:
+            struct.pack_into("<I", data, off + 4, 2**32 - 1 - rng.choice([0, 0, 1, 2, 3]))
+            hot.append(fp)
+    case.desc = {"kind": "counting cuckoo image with counts at the limit", "capacity": cap, "bucket_size": bsz, "n_keys": len(keys), "bins_at_the_limit": len(hot)}
+    if not hot:
+        return
+    sc = bl.Scratch(ctx, case)
+    try:
+        def load(raw):
+            if rng.random() < 0.5:
+                return P.CountingCuckooFilter.frombytes(bytes(raw))
+            p = sc.path("img")
+            with open(p, "wb") as fh:
+                fh.write(bytes(raw))
+            return P.CountingCuckooFilter(filepath=p)
+
+        def audit(g, where):
+            bins = [b for bucket in g.buckets for b in bucket]
+            total = sum(b.count for b in bins)
+            ctx.check(g.elements_added == total, f"counting cuckoo elements_added is not the sum of all bin counts {where}", got=g.elements_added, want=total)
+            ctx.check(g.unique_elements == len(bins), f"unique_elements is not the number of bins {where}", got=g.unique_elements, want=len(bins))
+            ctx.check(all(0 < b.count <= 2**32 - 1 for b in bins), f"a bin count outside 1 .. 2^32-1 {where}")
+            ctx.count("counter_checks")
+
+        g = load(data)
+        audit(g, "right after loading an image with counts at the limit")
+        for step in range(rng.randint(6, 20)):
+            kx = rng.choice(keys)
+            r = rng.random()
+            before = (g.elements_added, g.unique_elements)
+            try:
+                if r < 0.6:
+                    what = "add"
+                    g.add(kx)
+                elif r < 0.85:
+                    what = "remove"
+                    g.remove(kx)
+                elif r < 0.93:
+                    what = "expand"
+                    g.expand()
+                else:
+                    what = "reload"
+                    g = load(bytes(g))
+                refused = False
+            except Exception as e:
+                refused = True
+                ctx.count("limit_image.calls_refused")
+                ctx.check((g.elements_added, g.unique_elements) == before, f"a refused {what} ({type(e).__name__}) changed the counters (step {step})", before=before,
+                          after=(g.elements_added, g.unique_elements))
+            audit(g, f"after step {step} ({what}{', refused' if refused else ''}) on an image with counts at the limit")
+        ctx.count("limit_image.cases")
+        case.nontrivial = True
+    finally:
+        sc.cleanup()
+
+
 # ------------------------------------------------------------------------------- quotient filter
 
 def wl_quotient(ctx, rng, case):
@@ -506,11 +582,12 @@ PROP = Prop(
         Workload("cuckoo", wl_cuckoo, quick=250, thorough=6000),
         Workload("cuckoo_failing", wl_cuckoo_failing, quick=200, thorough=5000),
         Workload("quotient", wl_quotient, quick=400, thorough=90000),
+        Workload("ccf_counts_at_limit", wl_ccf_counts_at_limit, quick=60, thorough=6000),
     ],
     assumptions=["statistics formulas evaluated in 60-digit decimal arithmetic; either neighbour accepted when the exact value is within 1e-9 of an integer; "
                  "a completely set array (documented sentinel -1) is outside the formula and skipped",
                  ],
     required=["counter_checks", "statistics_checks", "set_operation_count_checks", "ondisk_reopens", "joins", "cuckoo.decisions_taken", "cuckoo.capacity_changes",
               "cuckoo.reloads", "cuckoo.failed_expansions_or_inserts", "quotient.histories_with_removals", "quotient.merges", "aliasing_checks",
-              "counting_set_operation_count_checks", "counting_set_operation_results_with_pinned_counters"],
+              "counting_set_operation_count_checks", "counting_set_operation_results_with_pinned_counters", "limit_image.cases", "limit_image.calls_refused"],
 )
